@@ -8,6 +8,7 @@
 //   ROW n (d_i r_i group_i static_i alpha0_i)*n  usegroup g0..g5 flg_static bodyexclude
 //        spheres on the +x axis whose front surface is at integer distance d_i (d_i < 0: behind the
 //        origin), one body per sphere (static_i = 1: no joint)          -> "dist geomid" (mj_ray), hex
+//   CORPUS which                                               -> "CORPUS which d_ray g_ray d_multi g_multi" (hex)
 //   SCENE seed nb nray usegroup g0..g5 flg_static bodyexclude cutoff  -> multi-line report, ends "END"
 #include <math.h>
 #include <stdio.h>
@@ -164,10 +165,9 @@ static void run_scene(void) {
     if (d1 >= 0 && dist[k] == d1 && gid[k] == g1) for (int i = 0; i < 3; i++) if (n1[i] != nrm[3 * k + i]) nsame = 0;
     printf(" %d\n", nsame);
   }
-  // geometry of the plane / sphere / box geoms for the N-correspondence
+  // geometry of every (primitive) geom: N-correspondence for plane / sphere / box, analytic oracle for all
   for (int g = 0; g < m->ngeom; g++) {
     int t = m->geom_type[g];
-    if (t != mjGEOM_PLANE && t != mjGEOM_SPHERE && t != mjGEOM_BOX) continue;
     printf("X %d %d", g, t);
     for (int i = 0; i < 3; i++) printf(" %a", d->geom_xpos[3 * g + i]);
     for (int i = 0; i < 9; i++) printf(" %a", d->geom_xmat[9 * g + i]);
@@ -208,6 +208,39 @@ static void run_row(void) {
   mj_deleteData(d); mj_deleteModel(m); mj_deleteSpec(s);
 }
 
+// fixed corpus scenes (found by the random oracle, minimised by hand):
+//  BVHROT: a free body rotated by 90 deg about x with two spheres of very different size; its BVH root box is
+//          off-centre in the inertial frame, the ray hits the small sphere.
+//  PLANECUT: infinite ground plane, ray origin 10 m away from the plane's frame origin but 1 m above the plane.
+static void run_corpus(int which) {
+  mjSpec* s = mj_makeSpec();
+  mjsBody* world = mjs_findBody(s, "world");
+  mjtNum pnt[3], vec[3] = {0, 0, 0}, cutoff;
+  if (which == 0) {
+    mjsBody* b = mjs_addBody(world, NULL);
+    b->quat[0] = 0.70710678118654757; b->quat[1] = 0.70710678118654757; b->quat[2] = 0; b->quat[3] = 0;
+    mjsJoint* j = mjs_addJoint(b, NULL); j->type = mjJNT_FREE;
+    mjsGeom* g1 = mjs_addGeom(b, NULL); g1->type = mjGEOM_SPHERE; g1->size[0] = 0.1;
+    mjsGeom* g2 = mjs_addGeom(b, NULL); g2->type = mjGEOM_SPHERE; g2->size[0] = 0.3; g2->pos[2] = 1;
+    pnt[0] = -2; pnt[1] = 0; pnt[2] = 0; vec[0] = 1; cutoff = mjMAXVAL;
+  } else {
+    mjsGeom* g = mjs_addGeom(world, NULL); g->type = mjGEOM_PLANE; g->size[0] = g->size[1] = 0; g->size[2] = 0.1;
+    mjsBody* b = mjs_addBody(world, NULL); b->pos[2] = 5;
+    mjsJoint* j = mjs_addJoint(b, NULL); j->type = mjJNT_FREE;
+    mjsGeom* g1 = mjs_addGeom(b, NULL); g1->type = mjGEOM_SPHERE; g1->size[0] = 0.1;
+    pnt[0] = 10; pnt[1] = 0; pnt[2] = 1; vec[2] = -1; cutoff = 5;
+  }
+  mjModel* m = mj_compile(s, NULL);
+  if (!m) { printf("CORPUS fail %s\n", oneline(mjs_getError(s))); mj_deleteSpec(s); return; }
+  mjData* d = mj_makeData(m);
+  mj_kinematics(m, d); mj_comPos(m, d);
+  int g1 = -7, g2 = 12345; mjtNum dm = 0;
+  mjtNum d1 = mj_ray(m, d, pnt, vec, NULL, 1, -1, &g1, NULL);
+  mj_multiRay(m, d, pnt, vec, NULL, 1, -1, &g2, &dm, NULL, 1, cutoff);
+  printf("CORPUS %d %a %d %a %d\n", which, d1, g1, dm, g2);
+  mj_deleteData(d); mj_deleteModel(m); mj_deleteSpec(s);
+}
+
 int main(void) {
   mjg_install_handlers();
   char op[16];
@@ -233,6 +266,7 @@ int main(void) {
       for (int i = 0; i < 21; i++) if (scanf("%la", &v[i]) != 1) return 2;
       printf("%a\n", mju_rayGeom(v, v + 3, v + 12, v + 15, v + 18, type, NULL));
     } else if (!strcmp(op, "ROW")) run_row();
+    else if (!strcmp(op, "CORPUS")) { int w; if (scanf("%d", &w) != 1) return 2; run_corpus(w); }
     else if (!strcmp(op, "SCENE")) run_scene();
     else return 3;
   }
